@@ -33,7 +33,9 @@ RULE = (
     "every string over one representative per character class (letters 'a','Z', digit, '_', '.', '-', ':', '/', '#', "
     "space, tab, newline, '[', ']', non-ASCII letter 'é') up to length 4 (quick) / 7 (thorough), the empty string "
     "included, is given to both validators - exhaustive for that bound (coverage.exhaustive is set only if the number of "
-    "enumerated strings equals the size of the space) - plus random strings up to length 40 over the same classes, "
+    "enumerated strings equals the size of the space) - plus every string up to length 3 over a second alphabet of "
+    "characters that regular-expression flags treat specially (case-folding partners of ASCII letters: dotless i, long s, "
+    "Kelvin sign, dotted capital I; non-ASCII digits and letters; non-ASCII whitespace) - plus random strings up to length 40 over the same classes, "
     "other Unicode whitespace (NBSP, EM SPACE, LINE SEPARATOR, \\x1c, \\x85, \\r, \\x0b, \\x0c) and other non-ASCII letters and "
     "digits; each answer is compared with a hand-written character-level recogniser (no regular expressions). key = "
     "(function, length, expected answer, first character class, last character class, contains ':' / whitespace / "
@@ -114,7 +116,17 @@ def run_case(ctx, g, rng):
 
             probe.sample({"enumerated_range": [lo, hi], "first": s, "last": nth(hi - 1), "is_w3c_prefix(first)": w3c.is_w3c_prefix(s), "is_w3c_curie(first)": w3c.is_w3c_curie(s)})
         return
-    pool = ALPH + WS + OTHER
+    if g == nchunks:
+        # a second, small exhaustive pass over characters that regular-expression flags are known to treat specially:
+        # case-folding partners of ASCII letters, non-ASCII digits, non-ASCII whitespace
+        import itertools
+
+        for k in range(0, 4):
+            for tup in itertools.product(ALPH2, repeat=k):
+                check(ctx, "".join(tup))
+                S.counters["wl:enumerated-secondary"] += 1
+        return
+    pool = ALPH + WS + OTHER + ALPH2
     for _ in range(200):
         style = rng.random()
         if style < 0.4:
